@@ -1,6 +1,7 @@
 package main
 
 import (
+	"go/token"
 	"fmt"
 	"go/types"
 	"strings"
@@ -51,6 +52,20 @@ func (c *FnCtx) calleeName(cc *ssa.CallCommon) (string, *ssa.Function) {
 	if pv, ok := cc.Value.(*ssa.Parameter); ok && !cc.IsInvoke() {
 		if _, isSig := pv.Type().Underlying().(*types.Signature); isSig {
 			return "param " + c.fn.String() + "." + pv.Name(), nil
+		}
+	}
+	// call through a captured function value: when every closure-creation site of this function binds the same
+	// free-variable-less function literal there, the call is static
+	if fv, ok := cc.Value.(*ssa.FreeVar); ok && !cc.IsInvoke() {
+		if target := c.freeVarFunc(fv); target != nil {
+			return target.String(), target
+		}
+	}
+	if u, ok := cc.Value.(*ssa.UnOp); ok && u.Op == token.MUL && !cc.IsInvoke() {
+		if fv, ok := u.X.(*ssa.FreeVar); ok {
+			if target := c.freeVarFunc(fv); target != nil {
+				return target.String(), target
+			}
 		}
 	}
 	if fn := cc.StaticCallee(); fn != nil {
@@ -1025,4 +1040,74 @@ func (c *FnCtx) inlineCall(fn *ssa.Function, args []Val, resTy types.Type) (out 
 		c.ghost = rets[0].ghost
 	}
 	return out, true
+}
+
+// freeVarFunc resolves a function-typed free variable to the function it is always bound to, if that is decidable:
+// the enclosing function creates this closure only with a binding that is a plain function (no captures) stored
+// once into the captured variable, or the function value itself.
+func (c *FnCtx) freeVarFunc(fv *ssa.FreeVar) *ssa.Function {
+	fn := fv.Parent()
+	parent := fn.Parent()
+	if parent == nil {
+		return nil
+	}
+	idx := -1
+	for i, x := range fn.FreeVars {
+		if x == fv {
+			idx = i
+		}
+	}
+	if idx < 0 {
+		return nil
+	}
+	var target *ssa.Function
+	for _, b := range parent.Blocks {
+		for _, in := range b.Instrs {
+			mc, ok := in.(*ssa.MakeClosure)
+			if !ok || mc.Fn != ssa.Value(fn) {
+				continue
+			}
+			var f *ssa.Function
+			funcOf := func(v ssa.Value) *ssa.Function {
+				switch bv := v.(type) {
+				case *ssa.Function:
+					return bv
+				case *ssa.MakeClosure:
+					if len(bv.Bindings) == 0 {
+						g, _ := bv.Fn.(*ssa.Function)
+						return g
+					}
+				}
+				return nil
+			}
+			switch bv := mc.Bindings[idx].(type) {
+			case *ssa.Alloc:
+				// a captured variable cell: assigned exactly once, with a plain function, and only read otherwise
+				refs := bv.Referrers()
+				if refs == nil {
+					return nil
+				}
+				var st *ssa.Store
+				for _, r := range *refs {
+					if x, ok := r.(*ssa.Store); ok && x.Addr == ssa.Value(bv) {
+						if st != nil {
+							return nil
+						}
+						st = x
+					}
+				}
+				if st == nil || !singleAssignCell(bv, st) {
+					return nil
+				}
+				f = funcOf(st.Val)
+			default:
+				f = funcOf(bv)
+			}
+			if f == nil || len(f.FreeVars) > 0 || (target != nil && target != f) {
+				return nil
+			}
+			target = f
+		}
+	}
+	return target
 }
